@@ -144,6 +144,8 @@ fn enabled(e: &PEnv, sc: &PScenario) -> Vec<PStep> {
             v.push(PStep::Apply(c.id));
             if e.faults_left > 0 && c.method != "pay" {
                 v.push(PStep::Fault(c.id, if c.method == "waitsendpay" { 200 } else { -1 }));
+                // transport / response-parse failure: an error without a code
+                v.push(PStep::Fault(c.id, 0));
             }
         }
     }
@@ -217,7 +219,7 @@ fn exec(e: &mut PEnv, s: &PStep) {
             e.faults_left -= 1;
             e.fault_used = true;
             if let Some(tx) = e.calls[idx].tx.take() {
-                let _ = tx.send(Err(RpcErr::new(*code, "injected read fault")));
+                let _ = tx.send(Err(if *code == 0 { RpcErr::transport("injected: no response from lightningd") } else { RpcErr::new(*code, "injected read fault") }));
             }
             e.calls[idx].state = CState::Done;
         }
